@@ -210,13 +210,16 @@ impl ArrayImpl {
     pub fn like(&self, pattern: &str) -> Result {
         /// Converts a SQL LIKE pattern to a regex pattern.
         fn like_to_regex(pattern: &str) -> String {
-            let mut regex = String::with_capacity(pattern.len());
-            regex.push('^');
+            let mut regex = String::with_capacity(pattern.len() + 8);
+            // `(?s)`: `%` and `_` also match a newline
+            regex.push_str("(?s)^");
+            let mut buf = [0; 4];
             for c in pattern.chars() {
                 match c {
                     '%' => regex.push_str(".*"),
                     '_' => regex.push('.'),
-                    c => regex.push(c),
+                    // any other character stands for itself, also when it is a regex metacharacter
+                    c => regex.push_str(&regex::escape(c.encode_utf8(&mut buf))),
                 }
             }
             regex.push('$');
